@@ -22,6 +22,10 @@ def sample_base(which):
                 loops=[[0, 0, 0, 0], [40, 1, 10, 1], [0, 0, 0, 0], [60, 2, 30, 65535], [50, 0, 5, 9998]] + [[0, 0, 0, 0]] * 3)
 
 
+# the 41 characters an AKAI name can hold, each at least once (no leading / trailing blank: the printed form is stripped)
+NAMES41 = ["0123456789 A", "BCDEFGHIJKLM", "NOPQRSTUVWXY", "Z#+-. A+B-C#", "+", "-", "A-B+C", "-+-+"]
+
+
 def sample_image(h):
     hdr = dict(h)
     hdr["semi"] = F.s8(h["semi"])
@@ -29,12 +33,13 @@ def sample_image(h):
     hdr["loops"] = [tuple(l) for l in h["loops"]]
     data = A.sample_header(hdr) + A.words_bytes(A.pcm_words(1, 20))
     spec = {"parts": [{"vols": [{"name": "VOL", "dir": [3], "files": [
-        {"name": "FNAME", "kind": "raw", "ftype": 0xF3 if h["sid"] == 3 else 0x73, "chain": [4], "data": data.hex()}]}]}]}
-    return A.build_akai(A.model_from_spec(spec))[0], "A:/VOL/FNAME"
+        {"name": h.get("fname", "FNAME"), "kind": "raw", "ftype": 0xF3 if h["sid"] == 3 else 0x73, "chain": [4], "data": data.hex()}]}]}]}
+    # a file name that is not the plain default is addressed by the name the volume listing prints for it
+    return A.build_akai(A.model_from_spec(spec))[0], ("A:/VOL/FNAME" if "fname" not in h else None)
 
 
 def sample_expect(h):
-    exp = [("file_name", "name12", "FNAME"), ("sample_name", "name12", h["sname"]), ("sample_type", "enum:sample_type", h["sid"]),
+    exp = [("file_name", "name12", h.get("fname", "FNAME")), ("sample_name", "name12", h["sname"]), ("sample_type", "enum:sample_type", h["sid"]),
            ("sample_rate", "u32", h["rate"] or 44100), ("samples_cnt", "u32", h["count"]), ("start_sample", "u32", h["start"]),
            ("end_sample", "u32", h["end"]), ("pitch_semi", "s8", h["semi"]), ("loop_type", "enum:sample_loop", h["loop_type"])]
     if h["loop_type"] != 2:
@@ -54,6 +59,9 @@ def sample_cases(quick):
                             ("count", U32), ("start", U32), ("end", U32), ("rate", [0, 1, 44100, 65535]), ("note", [21, 24, 60, 127])):
             for v in vals:
                 yield {"kind": "akai_sample", "base": which, "dev": [[field, v]]}
+        for nm in NAMES41:
+            yield {"kind": "akai_sample", "base": which, "dev": [["sname", nm]]}
+            yield {"kind": "akai_sample", "base": which, "dev": [["fname", nm]]}
         for slot in range(8):
             for dur in (0, 1, 9998, 9999, 65535):
                 yield {"kind": "akai_sample", "base": which, "dev": [[f"loop{slot}", [300 + slot, slot, 20, dur]]]}
@@ -76,7 +84,7 @@ def build_sample(case):
         else:
             h[f] = v
     img, path = sample_image(h)
-    return img, path, sample_expect(h), "FNAME"
+    return img, path, sample_expect(h), (None if "fname" in h else "FNAME")
 
 
 # ----------------------------------------------------------------------------- AKAI program
@@ -182,6 +190,13 @@ def program_cases(quick):
                 continue
             for val in F.domain_values(kind):
                 yield {"kind": "akai_program", "base": which, "nkg": 1, "zones": [1, 0, 0, 0], "addr": [150], "dev": [["hdr", name, val]]}
+        for name, off, kind in AP.PROGRAM_FIELDS:
+            if kind == "name12":
+                for nm in NAMES41:
+                    yield {"kind": "akai_program", "base": which, "nkg": 1, "zones": [1, 0, 0, 0], "addr": [150], "dev": [["hdr", name, nm]]}
+        for z in range(4):
+            for nm in NAMES41:
+                yield {"kind": "akai_program", "base": which, "nkg": 1, "zones": [1, 1, 1, 1], "addr": [150], "dev": [["zone", 0, z, "sample_name", nm]]}
         for i in range(12):
             for val in (0, 1, 255):
                 yield {"kind": "akai_program", "base": which, "nkg": 1, "zones": [1, 0, 0, 0], "addr": [150], "dev": [["temper", i, val]]}
@@ -312,7 +327,7 @@ def compare(st, out, exp, header_name):
         return True, "capped(>300 rows): not required", None
     if "__duplicates__" in vals:
         return False, "key-printed-twice", {"keys": vals["__duplicates__"][:200]}
-    if not header.startswith(header_name):
+    if header_name is not None and not header.startswith(header_name):
         return False, "header-name", {"expected": header_name, "observed": header[:80]}
     for path, kind, stored in exp:
         if path not in vals:
@@ -328,7 +343,17 @@ def run_case(case):
     if k == "cdda":
         return check_cdda(case)
     img, path, exp, hname = {"akai_sample": build_sample, "akai_program": build_program, "roland_sample": build_roland}[k](case)
-    st, out = guarded(lambda: tree.ls(tree.open_image(img), path), 30.0)
+    def go():
+        image = tree.open_image(img)
+        p = path
+        if p is None:
+            from mcv.checks.c10 import parse_table
+            names = parse_table(tree.ls(image, "A:/VOL")) or []
+            if len(names) != 1:
+                return "was not found: the volume lists %r" % (names,)
+            p = "A:/VOL/" + names[0]
+        return tree.ls(image, p)
+    st, out = guarded(go, 30.0)
     return compare(st, out, exp, hname)
 
 
@@ -340,6 +365,7 @@ class Check(CheckBase):
             "boundary values of its stored domain (u8 {0,1,127,128,254,255}, s8 bytes {80,81,FF,00,01,7E,7F}, switches "
             "{0,1,2,255}, every enumeration member, note bytes, u32 {0,1,2^16,2^31,2^32-1}) with the others at base: AKAI sample "
             "header (type, loop mode, tuning, counts/markers, rate incl. 0, each of the 8 loop slots x duration/at values), "
+            "names over all 41 AKAI characters in the sample name, file name, program name and zone sample names, "
             "AKAI program header (all 46 parameters + 12 temperaments), keygroup parameters of keygroup 0 and 1, zone velocity "
             "ranges, keygroup count 1..3 x address layouts (contiguous, permuted, gaps, non-multiples of 150, first address != "
             "150) x all 16 zone-name patterns (<=2 zones with 3 keygroups), Roland sample (5 points x address/fine corners, 7 "
